@@ -48,3 +48,65 @@ package ast
 //@   modifies nothing
 //@ family ast.Node.Tok(this)
 //@   modifies nothing
+
+// ---- layouts and components (C06, C07) ----
+
+//@ nonnil values map[string]*ReserveStmt
+//@ nonnil values map[string]*InsertStmt
+//@ nonnil elems []*ComponentStmt
+//@ nonnil elems []*SlotStmt
+//@ nonnil field ast.ReserveStmt.Name
+//@ nonnil field ast.InsertStmt.Name
+//@ nonnil field ast.ComponentStmt.Name
+//@ nonnil field ast.SlotStmt.Name
+//@ nonnil field ast.UseStmt.Name
+
+//@ func (p *Program) HasReserveStmt
+//@   inline
+//@ func (p *Program) HasUseStmt
+//@   inline
+//@ func (p *Program) Line
+//@   inline
+
+// an insert that names no reserve of the layout is an error; nothing else is
+//@ func (p *Program) checkUndefinedInsert
+//@   ensures result == nil <==> forallkey(inserts, k, has(p.Reserves, k))
+//@   modifies nothing
+//@   loop 0: invariant forallkey(inserts, k, visited(k) ==> has(p.Reserves, k))
+
+// every reserve of the layout receives the page's insert of its own name, or keeps what it
+// had; nothing else is written (whole-view postcondition over all reserves)
+//@ func (p *Program) ApplyInserts
+//@   requires forallkey(p.Reserves, k, p.Reserves[k].Name.Value == k)
+//@   ensures result == nil <==> forallkey(inserts, k, has(p.Reserves, k))
+//@   ensures result == nil ==> forallkey(p.Reserves, k, p.Reserves[k].Insert == ite(has(inserts, k), inserts[k], old(p.Reserves[k].Insert)))
+//@   modifies anyfield(ReserveStmt.Insert)
+//@   loop 0: invariant forallkey(p.Reserves, k, p.Reserves[k].Insert == ite(visited(k) && has(inserts, k), inserts[k], old(p.Reserves[k].Insert)))
+
+// the page's own statements are replaced by the @use statement, which carries the layout
+//@ func (p *Program) ApplyLayout
+//@   requires p.UseStmt != nil
+//@   ensures p.UseStmt.Program == prog && len(p.Statements) == 1 && p.Statements[0] == iface(p.UseStmt) && p.UseStmt == old(p.UseStmt)
+//@   modifies p.Statements, p.UseStmt.Program
+
+//@ func findSlotStmtIndex
+//@   requires forall(k, 0, len(stmts), stmts[k] != nil && refof(stmts[k]) != 0)
+//@   ensures result >= -1 && result < len(stmts)
+//@   ensures result >= 0 ==> istype(stmts[result], *SlotStmt) && as(stmts[result], *SlotStmt).Name.Value == slotName
+//@   ensures result == -1 ==> forall(k, 0, len(stmts), !(istype(stmts[k], *SlotStmt) && as(stmts[k], *SlotStmt).Name.Value == slotName))
+//@   modifies nothing
+//@   loop 0: invariant forall(k, 0, rangeindex+1, !(istype(stmts[k], *SlotStmt) && as(stmts[k], *SlotStmt).Name.Value == slotName))
+
+//@ func findDuplicateSlot
+//@   ensures result1 >= 0
+//@   modifies nothing
+
+// ApplyComponent attaches the freshly parsed component program to ONE use of that name
+//@ func (p *Program) ApplyComponent
+//@   requires prog != nil && forall(k, 0, len(prog.Statements), prog.Statements[k] != nil && refof(prog.Statements[k]) != 0)
+//@   requires forall(i, 0, len(p.Components), forall(j, 0, len(p.Components), i != j ==> p.Components[i] != p.Components[j]))
+//@   requires forall(i, 0, len(p.Components), p.Components[i].Block != prog)
+//@   goal independent: result == nil ==> forall(i, 0, len(p.Components), forall(j, 0, len(p.Components), i != j && p.Components[i].Block == prog ==> p.Components[j].Block != prog))
+//@   goal others-untouched: forall(i, 0, len(p.Components), p.Components[i].Block == prog || p.Components[i].Block == old(p.Components[i].Block))
+//@   modifies anyfield(ComponentStmt.Block), anyfield(SlotStmt.Body)
+//@   loop 0: invariant forall(i, 0, len(p.Components), p.Components[i].Block == old(p.Components[i].Block) || (i <= rangeindex && p.Components[i].Block == prog))
